@@ -607,7 +607,22 @@ func marshalInner(pj *simdjson.ParsedJson, docs []*ref.Node) (what string) {
 		}
 		return ""
 	}
-	for _, p := range valuePositions(docs) {
+	positions := valuePositions(docs)
+	if len(positions) > 240 {
+		// very large documents: first 80, last 80 and 80 evenly spaced positions
+		var sel []vpath
+		sel = append(sel, positions[:80]...)
+		step := (len(positions) - 160) / 80
+		if step < 1 {
+			step = 1
+		}
+		for i := 80; i < len(positions)-80; i += step {
+			sel = append(sel, positions[i])
+		}
+		sel = append(sel, positions[len(positions)-80:]...)
+		positions = sel
+	}
+	for _, p := range positions {
 		want := nodeAt(docs, p)
 		for _, route := range []int{1, 3} {
 			// only iterators restricted to one value (AdvanceIter, NextElement, Parse)
